@@ -8,8 +8,16 @@
         partial decode, 3 rebuilt from in-memory storage at a prefix, 4 rebuilt from any-store storage, 5 caught up via
         RecordsAfter, 6 other observer identity) must expose the same state and head as the reference replica (own
         read keys are compared only when both replicas have the same identity: with_keys).
+        Routes of the batch stream: 7 a replica that was offered batches / sequences CONTAINING A RECORD THAT MUST BE
+        REJECTED (failing at content k of a multi-content record, late in apply, raw mutation) against the one-at-a-time
+        reference replica at the same head; 8 such a replica (s_obs) against a list rebuilt from its OWN storage (s_ref).
      CFold v me owner root opts ws s_obs
         replaying the accepted raw records [ws] from the root state in the model gives the observed state.
+     CBatch need_acc v me s ids ws ok s_after ids_after stored_after
+        one AddRawRecords call with the raw records [ws] (known records, new valid records, a record that must be
+        rejected, valid continuation) on a real replica whose OBSERVED state is [s] and in-memory ids [ids]; ok = the
+        call returned nil; s_after / ids_after / stored_after observed afterwards.  Model: [add_raws] (skips duplicates,
+        stops at the first other error, a rejected record leaves no trace).  Spec: [spec_C03_batch] below.
    check_all: code 1 = model differs from the observation, code 2 = spec_C03 false on the observation. *)
 From Coq Require Import List NArith Bool.
 Import ListNotations.
@@ -20,7 +28,47 @@ Inductive case :=
 | CAdd (need_acc v : bool) (me : acct) (s : state) (ids : list rid) (w : raw) (res : outcome)
        (s_after : state) (ids_after stored_after : list rid)
 | CSame (route : N) (with_keys : bool) (s_ref : state) (head_ref : rid) (s_obs : state) (head_obs : rid)
-| CFold (v : bool) (me owner : acct) (root : rid) (opts : option (option bool)) (ws : list raw) (s_obs : state).
+| CFold (v : bool) (me owner : acct) (root : rid) (opts : option (option bool)) (ws : list raw) (s_obs : state)
+| CBatch (need_acc v : bool) (me : acct) (s : state) (ids : list rid) (ws : list raw) (ok : bool)
+         (s_after : state) (ids_after stored_after : list rid).
+
+(* ---- specification of one AddRawRecords call over OBSERVED behaviour (never calls the machine of Model/Acl.v):
+   storage and memory agree; the old log is a prefix of the new one; the new ids are ids of offered records, in the
+   offered order, none known before; every newly accepted id belongs to an offered record with that id whose CID,
+   signatures and decoding are fine and whose prev is the id accepted just before it (the old head for the first);
+   the state's last record id is the new head; nothing accepted => observable state unchanged; the call returns nil
+   iff every offered record is in the log afterwards. *)
+Fixpoint is_prefix (a b : list N) : bool :=
+  match a, b with
+  | [], _ => true
+  | x :: a', y :: b' => (x =? y) && is_prefix a' b'
+  | _ :: _, [] => false
+  end.
+Fixpoint subseq (a b : list N) : bool :=
+  match a, b with
+  | [], _ => true
+  | _ :: _, [] => false
+  | x :: a', y :: b' => if x =? y then subseq a' b' else subseq a b'
+  end.
+Definition raw_fine (need_acc : bool) (w : raw) : bool :=
+  w_cid_ok w && w_sig_ok w && w_decodes w && (negb need_acc || w_acceptor_ok w).
+Fixpoint chained (need_acc : bool) (ws : list raw) (prev : rid) (new : list rid) : bool :=
+  match new with
+  | [] => true
+  | x :: rest =>
+      existsb (fun w => (w_id w =? x) && raw_fine need_acc w && (w_prev w =? prev)) ws && chained need_acc ws x rest
+  end.
+Definition spec_C03_batch (need_acc : bool) (s : state) (ids : list rid) (ws : list raw) (ok : bool)
+           (s_after : state) (ids_after stored_after : list rid) : bool :=
+  let new := skipn (length ids) ids_after in
+  list_N_eqb stored_after ids_after &&
+  is_prefix ids ids_after &&
+  subseq new (map w_id ws) &&
+  forallb (fun x => negb (memN x ids)) new &&
+  chained need_acc ws (last_or ids 0) new &&
+  (last s_after =? last_or ids_after 0) &&
+  (match new with [] => obs_eqb s s_after | _ => true end) &&
+  Bool.eqb ok (forallb (fun w => memN (w_id w) ids_after) ws).
 
 Definition no_keys (s : state) : state :=
   mkState (accounts s) (invites s) (requests s) (pending s) (keychanges s) (options s) (last s) [].
@@ -39,6 +87,10 @@ Definition model_ok (c : case) : bool :=
       | Some s => obs_eqb s s_obs
       | None => false
       end
+  | CBatch need_acc v me s ids ws ok s_after ids_after stored_after =>
+      match add_raws false need_acc v me (mkList s ids []) ws with
+      | (l', ok') => Bool.eqb ok ok' && obs_eqb (l_state l') s_after && list_N_eqb (l_ids l') ids_after
+      end
   end.
 
 Definition spec_ok (c : case) : bool :=
@@ -49,6 +101,8 @@ Definition spec_ok (c : case) : bool :=
       (head_ref =? head_obs) &&
       (if with_keys then obs_eqb s_ref s_obs else obs_eqb (no_keys s_ref) (no_keys s_obs))
   | CFold _ _ _ _ _ _ _ => true
+  | CBatch need_acc v me s ids ws ok s_after ids_after stored_after =>
+      spec_C03_batch need_acc s ids ws ok s_after ids_after stored_after
   end.
 
 Fixpoint check_from (i : N) (l : list case) : list (N * N) :=
